@@ -210,7 +210,8 @@ func (st *SlimTrie) getGEPath(key string) ([]int32, bool) {
 		return []int32{}, false
 	}
 
-	if st.inner.InnerPrefixes == nil || st.inner.LeafPrefixes == nil {
+	// InnerPrefixes without PositionBM stores only step lengths, not prefixes.
+	if st.inner.InnerPrefixes == nil || st.inner.InnerPrefixes.PositionBM == nil || st.inner.LeafPrefixes == nil {
 		panic("incomplete slim does not support scanning. requires InnerPrefixes and LeafPrefixes")
 	}
 
